@@ -1492,6 +1492,9 @@ def catalogue():
         ('FunctionalComp-MatrixOperator-weighted-space', "S.L2Norm(odl.rn(2)) * odl.MatrixOperator(np.array([[1.0, 2.0, -1.0, 0.0], [0.5, 0.0, 3.0, 1.0]]), domain=SP['discr4'], range=odl.rn(2))", False),
         ('FunctionalComp-Gradient-discr', "S.L2NormSquared(odl.Gradient(SP['discr23']).range) * odl.Gradient(SP['discr23'])", False),
         ('FunctionalComp-MatrixOperator-unweighted', "S.L2Norm(odl.rn(2)) * odl.MatrixOperator(np.array([[1.0, 2.0, -1.0], [0.5, 0.0, 3.0]]))", False),
+        # image deformation: the fixed-displacement operator is linear (its own derivative); the fixed-template one
+        # is exempt by the property text (its derivative discretises the continuum formula) and is not probed
+        ('LinDeformFixedDisp-linear', "odl.deform.LinDeformFixedDisp(SP['discr4'].tangent_bundle.element([[0.1, 0.0, -0.1, 0.05]]))", False),
         ('RosenbrockFunctional-rn', "S.RosenbrockFunctional(odl.rn(4), scale=2.0)", False),
         ('RosenbrockFunctional-weighted-space', "S.RosenbrockFunctional(SP['rn3w'], scale=2.0)", False),
         ('RosenbrockFunctional-weighted-space', "S.RosenbrockFunctional(SP['discr4'], scale=2.0)", False),
